@@ -43,6 +43,7 @@ type Program struct {
 	Funcs []*ssa.Function
 	// Anchor resolution failures (collected, reported by the runner).
 	Unresolved []string
+	storeCache map[*ssa.Function]map[string]bool
 }
 
 func loadProgram(repo, goarch string) (*Program, error) {
